@@ -41,6 +41,7 @@ _PURE_BUILTINS = {'next': next, 'iter': iter, 'dict': dict, 'list': list, 'tuple
 
 
 import posixpath as _pp
+import builtins as _builtins_mod
 _PURE_EXTERNALS = {'os.path.join': _pp.join, 'os.path.normpath': _pp.normpath, 'os.path.basename': _pp.basename, 'os.path.dirname': _pp.dirname,
                    'os.path.splitext': _pp.splitext, 'os.path.isabs': _pp.isabs, 'os.path.abspath': lambda x: _pp.normpath(_pp.join('/cwd', x)),
                    'os.fspath': str, 'os.path.split': _pp.split}
@@ -291,6 +292,7 @@ class FDE:
         self._eager_node = None
         self._gen_once = False
         self._cm_once = False
+        self.constructors = {}   # class name -> callable standing in for the construction of a node of that class
         self.free = {}           # free name -> plain value (e.g. a model of __builtins__)
         self.extcalls = {}       # dotted name -> python callable standing in for an external function (e.g. inspect.signature)
 
@@ -380,6 +382,9 @@ class FDE:
             return lambda *a, **k: self._invoke(v.fi, [v.recv] + list(a), dict(k))
         if callable(v) and getattr(v, '_fde_ok', False):
             return v
+        if isinstance(v, Obj) and v.cls in self.repo.classes and self.repo.resolve(v.cls, '__call__') is not None:
+            call_ = self.repo.resolve(v.cls, '__call__')
+            return lambda *a, **k: self._invoke(call_, [v] + list(a), dict(k))
         if isinstance(v, tuple) and v and v[0] in ('unbound', 'ntclass', 'partial'):
             return lambda *a, **k: self._apply(v, list(a), dict(k), ast.Name(id='<callback>', ctx=ast.Load()))
         raise Unsupported('callable %r' % (v,))
@@ -698,11 +703,28 @@ class FDE:
             o.missing.discard(t.attr)
         elif isinstance(t, ast.Subscript):
             d = self._ev(t.value, env, fi)
-            k = self._ev(t.slice, env, fi)
+            k = self._ev(t.slice, env, fi) if not isinstance(t.slice, ast.Slice) else None
             if isinstance(d, ObjDict) and isinstance(k, str):
                 d.obj.f[k] = v          # obj.__dict__[name] = value
                 d.obj.missing.discard(k)
                 self.effects.append(('setattr', d.obj, k, v))
+                return
+            if isinstance(d, list) and isinstance(t.slice, ast.Slice):
+                lo = self._ev(t.slice.lower, env, fi) if t.slice.lower is not None else None
+                hi = self._ev(t.slice.upper, env, fi) if t.slice.upper is not None else None
+                if t.slice.step is not None or any(x is not None and not isinstance(x, int) for x in (lo, hi)):
+                    raise Unsupported('slice store bounds: ' + unparse(t))
+                if isinstance(v, (dict, set)) or type(v).__name__ in _ITER_TYPES:
+                    v = list(v)
+                if not isinstance(v, (list, tuple)):
+                    raise Raised('TypeError')
+                d[lo:hi] = list(v)
+                return
+            if isinstance(d, list) and isinstance(k, int):
+                try:
+                    d[k] = v
+                except IndexError:
+                    raise Raised('IndexError')
                 return
             if not isinstance(d, dict):
                 raise Unsupported('subscript store on %r' % (d,))
@@ -788,6 +810,8 @@ class FDE:
             return ('strmethod', base, attr)
         if isinstance(base, (list, set)) and not attr.startswith('_') and hasattr(base, attr):
             return ('listmethod', base, attr)
+        if (base is None or isinstance(base, (str, int, float, bytes, list, dict, set))) and not hasattr(base, attr):
+            raise Raised('AttributeError')       # a plain Python value simply does not have it
         raise Unsupported('attribute %s of %r' % (attr, base))
 
     def _ev(self, e, env, fi):
@@ -830,7 +854,7 @@ class FDE:
                     if key not in self.class_objs:
                         self.class_objs[key] = self._ev(g, {}, fi)
                     return self.class_objs[key]
-            if e.id in ('list', 'dict', 'tuple', 'str', 'int', 'bytes', 'float', 'bool', 'set'):
+            if e.id in ('list', 'dict', 'tuple', 'str', 'int', 'bytes', 'float', 'bool', 'set', 'bytearray', 'frozenset', 'object', 'complex', 'type'):
                 return ('class', e.id)
             if fi is not None and e.id in fi.module.functions and e.id not in fi.module.rebound:
                 return ('unbound', fi.module.functions[e.id])       # a module-level function used as a value
@@ -851,6 +875,16 @@ class FDE:
                     return ('ext', getattr(_cabc, e.attr))       # (also what desugared match statements test sequences / mappings against)
             if isinstance(e.value, ast.Name) and (e.value.id, e.attr) in self.class_objs:
                 return self.class_objs[(e.value.id, e.attr)]
+            if isinstance(e.value, ast.Name) and e.value.id not in env and fi is not None and e.value.id in fi.module.imports and e.value.id not in self.repo.classes:
+                # <imported module of the package>.<class or function>
+                imp_ = fi.module.imports[e.value.id]
+                short_ = imp_.split(':')[-1].split('.')[-1] if imp_ else None
+                for m_ in self.repo.modules.values():
+                    if m_.short == short_ and (imp_.startswith('.') or imp_.startswith('awesomeyaml')):
+                        if e.attr in m_.classes and e.attr in self.repo.classes:
+                            return ('class', e.attr)
+                        if e.attr in m_.functions:
+                            return ('unbound', m_.functions[e.attr])
             if isinstance(e.value, ast.Name) and e.value.id not in env and e.value.id in self.repo.classes:
                 ci_ = self.repo.classes[e.value.id]
                 if e.attr in ci_.attrs and any(b.split('.')[-1] in ('Enum', 'IntEnum', 'StrEnum', 'Flag', 'IntFlag') for b in ci_.base_exprs):
@@ -872,6 +906,19 @@ class FDE:
                     return self.class_objs[(base[1], e.attr)]
                 if e.attr == 'ayns':
                     return ('classayns', base[1])
+                if base[1] in ('str', 'bytes', 'list', 'dict', 'tuple', 'set', 'int') and base[1] not in self.repo.classes and not e.attr.startswith('_') and hasattr(getattr(_builtins_mod, base[1]), e.attr):
+                    um_ = getattr(getattr(_builtins_mod, base[1]), e.attr)
+
+                    def unbound_builtin(*a, **k):
+                        if not a or not isinstance(a[0], getattr(_builtins_mod, base[1])) or isinstance(a[0], tuple) and a[0] and isinstance(a[0][0], str) and a[0][0] in ('class', 'ext', 'unbound', 'closure', 'partial') \
+                                or not all(_concrete(x) for x in a) or not all(_concrete(x) for x in k.values()):
+                            raise Unsupported('%s.%s applied to abstract values' % (base[1], e.attr))
+                        try:
+                            return um_(*a, **k)
+                        except Exception as ex:  # noqa
+                            raise Raised(type(ex).__name__)
+                    unbound_builtin._fde_ok = True
+                    return unbound_builtin          # str.strip, dict.get ... used as plain functions
                 t = self.repo.resolve(base[1], e.attr)
                 if t is not None and t.is_classmethod:
                     return ('partial', ('unbound', t), (('class', base[1]),), {})       # C.factory: the class is the first argument
@@ -1003,7 +1050,7 @@ class FDE:
             it = self._ev(gen.iter, env, fi)
             if isinstance(it, (dict, set)):
                 it = list(it)
-            if not isinstance(it, (list, tuple)):
+            if not isinstance(it, (list, tuple)) and type(it).__name__ not in _ITER_TYPES:
                 raise Unsupported('comprehension over non-concrete iterable: ' + unparse(gen.iter))
             out = []
             for x in it:
@@ -1017,7 +1064,7 @@ class FDE:
             it = self._ev(gen.iter, env, fi)
             if isinstance(it, (dict, set)):
                 it = list(it)
-            if not isinstance(it, (list, tuple)):
+            if not isinstance(it, (list, tuple)) and type(it).__name__ not in _ITER_TYPES:
                 raise Unsupported('comprehension over non-concrete iterable: ' + unparse(gen.iter))
             out = {} if isinstance(e, ast.DictComp) else set()
             for x in it:
@@ -1033,7 +1080,13 @@ class FDE:
             a, b = self._ev(e.left, env, fi), self._ev(e.right, env, fi)
             if isinstance(a, Opaque) or isinstance(b, Opaque):
                 return Opaque('sum')
-            return a + b
+            try:
+                return a + b
+            except TypeError:
+                if isinstance(a, Obj) or isinstance(b, Obj):
+                    if (isinstance(a, Obj) and a.cls in self.repo.classes) or (isinstance(b, Obj) and b.cls in self.repo.classes):
+                        raise Unsupported('+ on a node object: ' + unparse(e))
+                raise Raised('TypeError')
         if isinstance(e, ast.Lambda):
             from .srcmodel import FuncInfo
             return ('closure', FuncInfo(e, fi.module, fi.cls, fi.ayns, outer=fi), env)
@@ -1351,7 +1404,7 @@ class FDE:
                 if (o is None or isinstance(o, (int, str, float, bytes, list, dict, tuple, set))) and not (isinstance(o, tuple) and o and isinstance(o[0], str) and o[0] in ('class', 'ext', 'kind')) \
                         and cands and all(isinstance(x, tuple) and len(x) == 2 and x[0] == 'ext' and isinstance(x[1], type) for x in cands):
                     return isinstance(o, tuple(x[1] for x in cands))
-                _B = {'int': int, 'str': str, 'bool': bool, 'float': float, 'list': list, 'dict': dict, 'tuple': tuple, 'bytes': bytes, 'set': set}
+                _B = {'int': int, 'str': str, 'bool': bool, 'float': float, 'list': list, 'dict': dict, 'tuple': tuple, 'bytes': bytes, 'set': set, 'bytearray': bytearray, 'frozenset': frozenset, 'object': object, 'complex': complex}
                 if (o is None or isinstance(o, (int, str, float, bytes, list, dict, tuple, set))) and not (isinstance(o, tuple) and o and o[0] in ('class', 'ext', 'kind')) \
                         and all(isinstance(x, tuple) and len(x) == 2 and x[0] == 'class' for x in cands):
                     if all(x[1] in _B for x in cands):
@@ -1424,6 +1477,9 @@ class FDE:
                 return self._apply(env[n], args, kwargs, e)
             if n in env and isinstance(env[n], Obj) and env[n].cls in self.repo.classes and self.repo.resolve(env[n].cls, '__call__') is not None:
                 return self._invoke(self.repo.resolve(env[n].cls, '__call__'), [env[n]] + args, kwargs)
+            if n in self.repo.classes and n not in env and n in self.constructors:
+                self.effects.append(('instantiate', n, tuple(args), tuple(sorted(kwargs.items(), key=lambda kv: kv[0]))))
+                return self.constructors[n](*args, **kwargs)       # a rule supplies the object this construction yields
             if n in self.repo.classes and n not in env and n not in self.stubs and self._plain_class(n):
                 return self._construct_plain(n, args, kwargs, env, fi)
             if n in self.repo.classes and n not in env:
@@ -1556,4 +1612,6 @@ class FDE:
             return self._invoke(target.fi, [target.recv] + args, kwargs)
         if callable(target) and getattr(target, '_fde_ok', False):
             return target(*args, **kwargs)
+        if isinstance(target, Obj) and target.cls in self.repo.classes and self.repo.resolve(target.cls, '__call__') is not None:
+            return self._invoke(self.repo.resolve(target.cls, '__call__'), [target] + list(args), dict(kwargs))
         raise Unsupported('call of the value %r (%s)' % (target, unparse(e.func) if isinstance(e, ast.Call) else unparse(e)))
